@@ -21,6 +21,8 @@ RULES = {
     'TIMEDELTA-TOTAL': 'durations are converted with total_seconds(), never with the .seconds/.microseconds components',
     'STATE-PER-INSTANCE': 'node state is per instance: no mutable default argument or class-level container ends up as (or is '
                           'mutated as) a node\'s buffer',
+    'CANCEL-ONLY-TIMERS': 'cancel() is called only on timer handles (values a call_later/call_at/add_timeout result was stored into): '
+                          'cancelling a task or future that is carrying an element aborts that element',
     'PAIRED-BUFFER': 'an element buffer and its metadata twin are mutated in lock-step (same paths, same order)',
     'SINGLE-CONSUMER': 'a drain coroutine is scheduled from exactly one once-only (or guarded) site',
     'SERIAL-DRAIN': 'a drain loop awaits the downstream of one emission before taking the next element',
@@ -418,9 +420,18 @@ def _queue_ctor(cls, field):
 
 def check_fifo_end(ctx, R, classes):
     for cls in classes:
-        if cls.module.name != 'streamz.core':
+        if cls.module.name not in ('streamz.core', 'streamz.sinks'):
             continue
         fields = set(element_buffers(ctx, cls)) | set(md_containers(ctx, cls))
+        # a list of pending per-element futures (update() appends the future it returns; a callback resolves them one by one)
+        # is a queue of the same kind: the oldest pending future belongs to the oldest element
+        up_ = cls.methods.get('update')
+        if up_ is not None:
+            returned = {r_.value.id for r_ in own_nodes(up_.node) if isinstance(r_, ast.Return) and isinstance(r_.value, ast.Name)}
+            for n_ in own_nodes(up_.node):
+                if isinstance(n_, ast.Call) and isinstance(n_.func, ast.Attribute) and n_.func.attr == 'append' \
+                        and self_field(n_.func.value) and len(n_.args) == 1 and isinstance(n_.args[0], ast.Name) and n_.args[0].id in returned:
+                    fields.add(self_field(n_.func.value))
         if not fields:
             continue
         ops = {f: {'add': set(), 'take': set()} for f in fields}
@@ -850,6 +861,48 @@ def check_paired_buffer(ctx, R, classes):
                 if n:
                     R.ob('PAIRED-BUFFER', con, '%s/%s' % (d, m), bad is None, detail, ctx.where(fn, fn.node.lineno),
                          fmt_path(bad) if bad else None, n)
+        # slots (fields that are *assigned*, not appended to): whenever update() puts the arriving element into the data slot it
+        # puts the arriving metadata into the twin slot on the same path - otherwise the element leaves with the metadata of an
+        # earlier one (no exception table here: the hold-until-replaced protocol of `latest` does this too)
+        up = cls.methods.get('update')
+        if up is not None:
+            for d, m in buffer_pairs(ctx, cls):
+                bad, n = None, 0
+                for st, status in ctx.paths(up, cls):
+                    evs = st.events
+                    if not _normal(evs, status):
+                        continue
+                    sd = [e for e in evs if e.kind == 'ST' and e.a == d and e.c == 'assign' and e.b and 'x' in e.b and not (e.x or {}).get('empty')]
+                    if not sd:
+                        continue
+                    n += 1
+                    sm = [e for e in evs if e.kind == 'ST' and e.a == m and e.c == 'assign' and e.b and 'md' in e.b]
+                    if not sm:
+                        bad = evs
+                if n:
+                    R.ob('PAIRED-BUFFER', ctx.construct(up), 'slot-stored-with-its-metadata:%s/%s' % (d, m), bad is None,
+                         'a path of update() assigns the arriving element to self.%s without assigning the arriving metadata to '
+                         'self.%s: the element is later emitted with the metadata of an earlier one' % (d, m),
+                         ctx.where(up, up.node.lineno), fmt_path(bad) if bad else None, n)
+        # the twins are constructed alike (same container type, same bound): a metadata deque without the maxlen of its element
+        # deque - or the other way round - lets the two drift apart as soon as one explicit pop is skipped
+        init = cls.find('__init__')
+        if init is not None and init.cls is not None and buffer_pairs(ctx, cls):
+            from .dasksib import _ctor_fields
+            try:
+                cf = _ctor_fields(ctx.model, cls, init)
+            except AnalysisError:
+                cf = None
+            params = set(init.params()) | {a_.arg for a_ in init.node.args.kwonlyargs}
+            for d, m in buffer_pairs(ctx, cls):
+                if cf is None or d not in cf or m not in cf:
+                    continue
+                fd = sorted('<parameter>' if v in params else v for v in cf[d])
+                fm = sorted('<parameter>' if v in params else v for v in cf[m])
+                exc = (cls.name, d, m) in PAIR_EXCEPTIONS and 'maxlen' not in ' '.join(fd + fm) or (cls.name, '*', '*') in PAIR_EXCEPTIONS
+                R.ob('PAIRED-BUFFER', ctx.construct(init), 'same-construction:%s/%s' % (d, m), fd == fm or exc,
+                     'self.%s is constructed as %s but its twin self.%s as %s: a different container type or bound lets element and '
+                     'metadata drift apart' % (d, ' | '.join(fd), m, ' | '.join(fm)), ctx.where(init, init.node.lineno))
         # an emission built from the element buffer carries the twin's content
         for d, m in buffer_pairs(ctx, cls):
             for mname, fn in ctx.entry_methods(cls):
@@ -1018,6 +1071,28 @@ def check_single_consumer(ctx, R, classes):
                     where = ctx.where(fn, n.lineno)
             if once > 1:
                 ok, detail = False, 'consumer %s is scheduled %d times in __init__' % (drain.name, once)
+            # a consumer that is replaced by signalling it to stop (SINGLE_CONSUMER_TABLE) must end on that signal alone: its
+            # loop test is `not <signal>.is_set()` (or `while True: if <signal>.is_set(): break`), nothing may keep it alive
+            if any((cls.name, fn_.name) in SINGLE_CONSUMER_TABLE for fn_, n_, via in expanded):
+                loops = [l for l in own_nodes(drain.node) if isinstance(l, ast.While)]
+                sig = [p_ for p_ in drain.params() if p_ != 'self']
+                honoured = False
+                for l in loops:
+                    t = l.test
+                    if isinstance(t, ast.UnaryOp) and isinstance(t.op, ast.Not) and isinstance(t.operand, ast.Call) \
+                            and isinstance(t.operand.func, ast.Attribute) and t.operand.func.attr == 'is_set' \
+                            and src(t.operand.func.value) in sig:
+                        honoured = True
+                    if isinstance(t, ast.Constant) and t.value is True and l.body and isinstance(l.body[0], ast.If) \
+                            and isinstance(l.body[0].test, ast.Call) and isinstance(l.body[0].test.func, ast.Attribute) \
+                            and l.body[0].test.func.attr == 'is_set' and src(l.body[0].test.func.value) in sig \
+                            and l.body[0].body and isinstance(l.body[0].body[-1], (ast.Break, ast.Return)):
+                        honoured = True
+                R.ob('SINGLE-CONSUMER', con, 'stop-signal-ends-the-consumer', honoured,
+                     'the consumer %s is replaced by setting its stop event, but its loop (%s) does not end on that event alone: an '
+                     'old consumer that stays alive next to the new one takes jobs too - more jobs in flight than the bound allows, '
+                     'and deliveries out of order' % (drain.name, src(loops[0].test)[:70] if loops else 'no while loop'),
+                     ctx.where(drain, loops[0].lineno if loops else drain.node.lineno))
             R.ob('SINGLE-CONSUMER', con, 'schedule-sites', ok, detail, where or ctx.where(drain, drain.node.lineno),
                  None, len(expanded))
 
@@ -1606,3 +1681,46 @@ def check_eager_update(ctx, R, classes):
         R.ob('EAGER-UPDATE', ctx.construct(up), 'update', not isinstance(up.node, ast.AsyncFunctionDef),
              'update() is a native coroutine function: its body does not run (nothing is reserved, buffered or emitted) unless '
              'the caller awaits the returned coroutine object', ctx.where(up, up.node.lineno))
+
+
+# ----------------------------------------------------------------------------- CANCEL-ONLY-TIMERS
+def check_cancel_only_timers(ctx, R, modules=('streamz.core', 'streamz.sinks', 'streamz.sources', 'streamz.dask')):
+    """who-may-cancel: every `<expr>.cancel()` in the node modules has as its receiver (an element of) a field of the class that
+    only ever receives results of loop.call_later / call_at / add_timeout.  A cancel() of anything else - the worker task of
+    map_async, a future returned by _emit - propagates a CancelledError into the coroutine that is processing an element: that
+    element is lost while the ones queued behind it are delivered (an order / loss change that depends on timing)."""
+    M = ctx.model
+    TIMER_MAKERS = ('call_later', 'call_at', 'add_timeout')
+    n = 0
+    for fn in M.all_funcs():
+        if fn.module.name not in modules or fn.cls is None:
+            continue
+        sites = [c for c in own_nodes(fn.node) if isinstance(c, ast.Call) and isinstance(c.func, ast.Attribute) and c.func.attr == 'cancel'
+                 and not c.args and not c.keywords]
+        if not sites:
+            continue
+        cls = fn.cls
+        # fields of the class that hold timer handles: every store into them (item or whole) is a timer maker's result
+        timer_fields, other_fields = set(), set()
+        for g in [f for f in M.all_funcs() if f.cls is cls]:
+            for st_ in own_nodes(g.node):
+                if isinstance(st_, ast.Assign):
+                    for t in st_.targets:
+                        f = self_field(t)
+                        if f is None:
+                            continue
+                        v = st_.value
+                        if isinstance(v, ast.Call) and isinstance(v.func, ast.Attribute) and v.func.attr in TIMER_MAKERS:
+                            timer_fields.add(f)
+                        elif isinstance(t, ast.Subscript) or not (isinstance(v, (ast.Dict, ast.List, ast.Constant)) or (
+                                isinstance(v, ast.Call) and src(v.func) in ('dict', 'list', 'defaultdict', 'OrderedDict'))):
+                            other_fields.add(f)
+        for c in sites:
+            n += 1
+            recv = c.func.value
+            f = self_field(recv)
+            ok = f is not None and f in timer_fields and f not in other_fields
+            R.ob('CANCEL-ONLY-TIMERS', ctx.construct(fn), 'cancel@%d' % sites.index(c), ok,
+                 '%s.cancel(): the receiver is not a stored timer handle - cancelling a task / future aborts the element it is '
+                 'processing, and which element that is depends on timing' % src(recv)[:50], ctx.where(fn, c.lineno))
+    R.count('cancel_sites', n)
